@@ -2,6 +2,7 @@ import TypstyleModel.Proofs.Strip
 import TypstyleModel.Props.C11
 import TypstyleModel.Proofs.Import
 import TypstyleModel.Proofs.CommentStable
+import TypstyleModel.Proofs.FitNever
 /-! C03 — convergence (partial).  The end-to-end statement `format (format x) = format x` needs
 the parser (`parse ∘ render`), which is not modelled (DESIGN.md §4 C03).  Proved here: the parts of
 the pipeline whose fixed-point behaviour is parser-free. -/
@@ -24,6 +25,39 @@ theorem C03_import_key_ignores_spacing (a b : ANode)
 theorem C03_import_sort_is_idempotent (nodes : List ANode) :
     stableSort importSortKey (stableSort importSortKey nodes) = stableSort importSortKey nodes :=
   stableSort_idem importSortKey nodes
+
+/-! ### T3.2: a list that did not fit is re-read as the list it was printed as
+
+Every list-like construct (arguments, arrays, dictionaries, parameters, destructurings, import
+items) is laid out by `ListStylist::print_doc`.  With `FoldStyle::Fit` the renderer decides whether
+the list's group is flat or broken; when it is broken the output has a line break after the opening
+delimiter, so the second pass sees a "multi-line flavoured" list and uses `FoldStyle::Never`
+(`get_fold_style_untyped`).  `L d` is the set of broken-mode layouts of `d` (`Lay .brk d`). -/
+
+/-- Between the delimiters, `Fit` (group broken) and `Never` have exactly the same layouts: the same
+atoms in the same order with the same line breaks — for every list of items, every separator and
+delimiter, every indent unit (style without `tight_delim`; with it the two differ, which is finding F15). -/
+theorem C03_fit_broken_is_never (sty : ListStyle) (ht : sty.tightDelim = false) (count real : Nat) (trailing : Bool)
+    (items : List LItem) (u : Nat) :
+    let fitInner := (items.foldl (fitStep sty count real trailing) (Twin.line_, 0, 0)).1
+    let neverInner := (items.foldl (neverStep sty count) (Twin.hardline, 0)).1
+    L ((if !sty.noIndent then fitInner.nstTab else fitInner).fam u) = L ((if !sty.noIndent then neverInner.nstTab else neverInner).fam u) :=
+  fit_body_eq_never_body sty ht count real trailing items u
+
+/-- At the level of `print_doc`: whatever the `Never` document can be laid out as, the `Fit` document
+can be laid out as too (with its group broken), delimiters included. -/
+theorem C03_never_layouts_are_fit_layouts (e : Env) (s : LS) (sty : ListStyle) (ht : sty.tightDelim = false)
+    (hs : (s.realCount == 1 && sty.omitDelimSingle) = false) (hlc : s.hasLineComment = false) (u : Nat) (xs : List Pretty.Atom)
+    (h : Pretty.Lay .brk (({ s with fold := .never }).print e sty |>.fam u) xs) :
+    Pretty.Lay .brk (({ s with fold := .fit }).print e sty |>.fam u) xs :=
+  never_layouts_are_fit_layouts e s sty ht hs hlc u xs h
+
+/-- The flavour is reproduced: in every layout of the `Never` body the first atom is a line break
+(so `is_multiline_flavor` of the printed list is true again). -/
+theorem C03_never_starts_with_a_break (sty : ListStyle) (count : Nat) (items : List LItem) (u : Nat) (xs : List Pretty.Atom)
+    (h : Pretty.Lay .brk ((items.foldl (neverStep sty count) (Twin.hardline, 0)).1.fam u) xs) :
+    ∃ k rest, xs = Pretty.Atom.nl k :: rest :=
+  never_starts_with_break sty count items u xs h
 
 /-! ### T3.4: block comments converge
 
